@@ -271,6 +271,13 @@ def run_impl(prop, cases, jobs=NPROC, what="obs", scale=1.0, retry=True):
             again = run_impl(prop, [cases[i] for i in slow], jobs=min(jobs, 4), what=what, scale=8.0, retry=False)
             for i, r in zip(slow, again):
                 res[i] = r
+            # still too slow: a last attempt, two at a time, with sixty times the limit -- a case that does not
+            # terminate is still reported (later), a case that is merely slow on a busy machine is not
+            slow = [i for i in slow if res[i].get("obs") == ["timeout"]]
+            if slow and len(slow) <= 6:
+                again = run_impl(prop, [cases[i] for i in slow], jobs=2, what=what, scale=60.0, retry=False)
+                for i, r in zip(slow, again):
+                    res[i] = r
     return res
 
 
